@@ -11,7 +11,7 @@
      outs_agree        results equal, pre-/post-order equal up to permutation *)
 From Coq Require Import ZArith List Bool Permutation.
 From FV Require Import C10.Spec C10.Model C10.Proofs C10.ProofsIns C10.ProofsDel C10.ProofsIter
-  C10.ProofsRefine C10.ProofsDrive C10.ProofsTop.
+  C10.ProofsRefine C10.ProofsDrive C10.ProofsTop C10.Run C10.ProofsRun.
 Import ListNotations.
 Open Scope Z_scope.
 
@@ -119,6 +119,17 @@ Theorem c10_no_undefined : forall (ops : list op) slot it,
   match mi_last it with Some k => lookup k (m_tree (reach ops)) <> None | None => True end.
 Proof. exact reach_iter_wellformed. Qed.
 Print Assumptions c10_no_undefined.
+
+(* the executable checkers that Run.v evaluates on the implementation's dumped tree mean what
+   the theorems above say (red-black rules, search-tree order, the height bound, equality
+   with the model's tree), and the probe's dump encoding determines the tree *)
+Theorem c10_checkers_sound : forall t,
+  (rb_ok t = true <-> rbtree t) /\ (bst_ok t = true <-> bst t) /\
+  (height_ok t = true <-> (2 ^ height t <= (size t + 1) * (size t + 1))%nat) /\
+  (forall t', tree_eqb t t' = true <-> t = t') /\
+  tree_of_shape (shape t) = Some t.
+Proof. exact checkers_sound. Qed.
+Print Assumptions c10_checkers_sound.
 
 (* ---- non-vacuity: the hypotheses are met by non-trivial states, and the model computes ---- *)
 Definition build7 : list op :=
